@@ -47,7 +47,6 @@ func main() {
 	primsPerms(r)
 	e2eC22(r)
 	e2eEmdFalse(r)
-	r.CountN("baseline-lost-object-kept-by-encrypted-pipeline", baselineLostTotal)
 }
 
 type testDoc struct {
